@@ -1697,6 +1697,12 @@ fn c19_world(t: &mut Tape, forced: Option<(usize, bool)>) -> RunOut {
                     m.auth.signed.push("date".into());
                     m.auth.signed.sort();
                 }
+                if kind == "token" && t.chance(2) {
+                    // the client signs its token header: both lines then enter the canonical
+                    // header block (joined in arrival order), and the first one still is the token
+                    m.auth.signed.push("x-amz-security-token".into());
+                    m.auth.signed.sort();
+                }
                 origin.auth.signed = m.auth.signed.clone();
                 sign(&origin.logical, &mut origin.auth, &origin.quirks, &acct.secret);
             }
@@ -2245,7 +2251,7 @@ pub fn registry() -> Vec<Profile> {
             title: "repeated authentication inputs",
             run: run_c19,
             required: &["dup_accepted", "dup_refused", "both_carriers_refused", "provider_saw_selected_identity"],
-            rule: "duplication faults on authentication inputs: a second Authorization header (before/after), a repeated Credential/Signature/SignedHeaders inside it, repeated X-Amz-* query parameters (6 names), two X-Amz-Date headers, Date beside X-Amz-Date (either is the real one), two token headers, both carriers at once; values differ and exactly one selection makes the reference signature valid; the documented selection table and the reference verdict from the bytes must agree before the library is judged; non-trivial always (a duplication fault fired); distinct by shape hash. Duplicates may be empty (empty first Authorization / X-Amz-Date / token header, empty last Credential= / Signature= / SignedHeaders=), the parameter list may contain empty elements, look-alike parameter names (NBSP/NEL byte in front, other letter case, a blank before the equal-sign) are unknown parameters, and the Date header may be signed while X-Amz-Date is not.",
+            rule: "duplication faults on authentication inputs: a second Authorization header (before/after), a repeated Credential/Signature/SignedHeaders inside it, repeated X-Amz-* query parameters (6 names), two X-Amz-Date headers, Date beside X-Amz-Date (either is the real one), two token headers, both carriers at once; values differ and exactly one selection makes the reference signature valid; the documented selection table and the reference verdict from the bytes must agree before the library is judged; non-trivial always (a duplication fault fired); distinct by shape hash. Duplicates may be empty (empty first Authorization / X-Amz-Date / token header, empty last Credential= / Signature= / SignedHeaders=), the parameter list may contain empty elements, look-alike parameter names (NBSP/NEL byte in front, other letter case, a blank before the equal-sign) are unknown parameters, the Date header may be signed while X-Amz-Date is not, and the token header may be signed when it is duplicated.",
             quick_runs: 200000,
             thorough_runs: 2400000,
             real: REAL_COMMON,
